@@ -174,7 +174,7 @@ pub fn run(tier: Tier, seed: u64) -> i32 {
             }
 
             // ---- (b) structure layer ---------------------------------------------------
-            let max_ops = tier.pick(3usize, 4usize);
+            let max_ops = tier.pick(4usize, 5usize);
             let props = ["t", "u", "v", "w", "x"];
             for k in 1..=max_ops {
                 let n = k + 1;
@@ -201,7 +201,9 @@ pub fn run(tier: Tier, seed: u64) -> i32 {
                 }
                 let b = Bench::new(&tag, uni.clone(), ctxs);
                 let opseqs = 3usize.pow(k as u32);
-                let notseqs = 3usize.pow(n as u32);
+                // 0..=2 nots per operand (0..=1 at the deepest bound, to keep the product tractable)
+                let notbase = if k >= 5 { 2usize } else { 3usize };
+                let notseqs = notbase.pow(n as u32);
                 // parenthesisations: none, or one contiguous sub-chain [lo, hi] with hi > lo, not the whole
                 let mut parens: Vec<Option<(usize, usize)>> = vec![None];
                 for lo in 0..n {
@@ -223,8 +225,8 @@ pub fn run(tier: Tier, seed: u64) -> i32 {
                     let mut nots = Vec::new();
                     let mut y = j / opseqs;
                     for _ in 0..n {
-                        nots.push(y % 3);
-                        y /= 3;
+                        nots.push(y % notbase);
+                        y /= notbase;
                     }
                     let operands: Vec<Expr> = (0..n)
                         .map(|i| {
@@ -288,7 +290,7 @@ pub fn run(tier: Tier, seed: u64) -> i32 {
                 }
             }
             let b = Bench::new(&tag, uni.clone(), ctxs);
-            let max_mixed_ops = tier.pick(1usize, 2usize);
+            let max_mixed_ops = tier.pick(2usize, 3usize);
             let na = atoms.len();
             for k in 1..=max_mixed_ops {
                 let n = k + 1;
@@ -306,9 +308,12 @@ pub fn run(tier: Tier, seed: u64) -> i32 {
                         x /= 3;
                     }
                     let mut shapes: Vec<Option<(usize, usize)>> = vec![None];
-                    if n == 3 {
-                        shapes.push(Some((0, 1)));
-                        shapes.push(Some((1, 2)));
+                    for lo in 0..n {
+                        for hi in lo + 1..n {
+                            if !(lo == 0 && hi == n - 1) {
+                                shapes.push(Some((lo, hi)));
+                            }
+                        }
                     }
                     for p in shapes {
                         let e = build_with_paren(&operands, &ops, p);
@@ -325,8 +330,9 @@ pub fn run(tier: Tier, seed: u64) -> i32 {
     let n = nt.lock().unwrap();
     run.set("programs", json!(n.programs));
     run.set("bounds", json!({
-        "structure_max_binary_operators": tier.pick(3, 4),
-        "mixed_max_binary_operators": tier.pick(1, 2),
+        "structure_max_binary_operators": tier.pick(4, 5),
+        "structure_nots_per_operand": "0..=2 (0..=1 at 5 operators)",
+        "mixed_max_binary_operators": tier.pick(2, 3),
         "configs": "optional x nil_not_equal (4)",
         "int_pool": int_pool(seed), "bytes_pool_len": bytes_pool(seed).len(), "ip_pool": ip_pool(seed).iter().map(|i| i.to_string()).collect::<Vec<_>>(),
     }));
